@@ -521,6 +521,40 @@ CLAIMED['C08'] = dict(
     design_ref="DESIGN.md 5 C08",
 )
 
+CLAIMED['C12'] = dict(
+    technique="Coq proof (loop invariant over the work-list of validate_calcs, for every pop order; fuel proved "
+              "sufficient by a measure) over a hand-transcribed model of the loop on top of the C01 cache machine, "
+              "tied to the code by differential runs on generated .xlsx files with injected stored results",
+    text="coq/Model/Validate.v transcribes the while-loop of ExcelCompiler.validate_calcs (stack to_verify, set "
+         "verified, _gen_graph, the 'No Orig data?' skip, cell.value = None without resetting dependants, evaluate, "
+         "the Mismatch dictionary with overwrite, the second recomputation, pushing unverified precedents) and "
+         "_CellBase.close_enough (on exact rationals) over coq/Model/Graph.v; formula meaning is an arbitrary total "
+         "function. Proved for EVERY well-formed workbook, meaning, tolerance (None or > 0) and list of outputs "
+         "(7 theorems, closed under the global context): C12_sound_partial (consistent stored results -> empty "
+         "report), C12_complete_partial (one stored result replaced by v' with close_enough false -> that cell is "
+         "reported with (v', true value) and every reported cell is it or a descendant, whatever the pop order), "
+         "C12_no_silent_skip_partial (for ANY stored results the stack is empty within the fuel |outputs|+|edges|+1 "
+         "and every node the outputs reach is in verified), the general forms C12_clean_not_reported_partial / "
+         "C12_bad_reported_partial (any number of altered cells), C12_close_enough_refl, C12_outputs_default "
+         "(output_addrs=None is an instance). The C01 coherence invariant "
+         "does not hold on a file with an altered stored result, so the loop invariant is a new one (a node whose "
+         "ancestors' stored results are consistent holds its from-scratch value; no built node is empty between "
+         "iterations; an unverified cell holds its stored result; a verified node's precedents are verified or ABOVE "
+         "it on the stack) — C01's closure/build/eval unfolding lemmas are reused. '_partial': two side conditions "
+         "are really needed and REFUTED without them in the faithful model (advisory coq/Refuted/C12_zero_tolerance.v: "
+         "tolerance=0 reports every number cell of a consistent file; coq/Refuted/C12_formula_text.v: a stored "
+         "result equal to the formula's own text is skipped silently together with the precedents only it reaches) "
+         "— both reproduced on the implementation by correspondence-only streams (inert predicates "
+         "C12-zero-tolerance, C12-stored-formula-text); two more are proof conveniences (from-scratch values are "
+         "scalars, no formula computes its own text). ORACLE-ONLY: the exceptions / not-implemented classification "
+         "(third stream, unknown function), 'within the tolerance is not reported'. Correspondence: every "
+         "validate_calcs call of the oracle streams (60 workbooks x {consistent x 3 tolerances x 2 output choices, "
+         "each formula cell perturbed x 3 tolerances}) plus the two extra streams, ~1000 runs per quick run: the "
+         "mismatch dictionary (order, original, calced) and every cell value after the run are compared exactly "
+         "with the extracted loop; plus 400 direct calls of _CellBase.close_enough against its transcription.",
+    design_ref="DESIGN.md 5 C12",
+)
+
 NOT_YET = "check not built yet in this round (planned: DESIGN.md section 7 lists the build order)"
 
 
